@@ -26,7 +26,7 @@ Record suite_case := {
   s_trace : trace; s_reg : registry; s_ec : list Z; s_et : list Z; s_ef : list Z;
   s_valid : bool;                 (* the harness claims the trace is valid; checked here *)
   s_fitness : Q; s_covered : bool; s_bcov : Q; s_lcov : Q; s_lcovd : bool; s_ccovd : bool;
-  s_lfit : Z; s_norm : list (dist * Q);
+  s_lfit : Z; s_cfit : Z; s_ccov : Q; s_norm : list (dist * Q);
   s_goals : list goal_obs;
   s_line_goals : list (Z * bool);     (* line id, LineCoverageGoal.is_covered *)
   s_code_goals : list (Z * bool * Q);  (* branch-less code object id, is_covered, fitness *)
@@ -47,6 +47,8 @@ Definition check_case (c : suite_case) : bool :=
   Bool.eqb (s_lcovd c) (line_is_covered t r) &&
   Bool.eqb (s_ccovd c) (checked_is_covered t r) &&
   Z.eqb (s_lfit c) (line_fitness t r) &&
+  Z.eqb (s_cfit c) (checked_fitness t r) &&
+  qclose (s_ccov c) (checked_coverage t r) &&
   forallb (fun dq => qclose (snd dq) (normalise (fst dq))) (s_norm c) &&
   forallb (check_goal t) (s_goals c) &&
   forallb (fun lg => Bool.eqb (snd lg) (line_goal_covered t (fst lg))) (s_line_goals c) &&
